@@ -596,6 +596,10 @@ func migrateRuleSet(lang i18n.Language, r RuleSet, validDests map[uuids.UUID]boo
 
 	case "form_field":
 		operand, _ := expressions.MigrateTemplate(r.Operand, nil)
+		if operand == "" {
+			return nil, "", nil, fmt.Errorf("form_field ruleset has no operand")
+		}
+
 		operand = fmt.Sprintf("@(field(%s, %d, \"%s\"))", operand[1:], config.FieldIndex, config.FieldDelimiter)
 		router = newSwitchRouter(nil, resultName, categories, operand, cases, defaultCategory)
 
